@@ -19,6 +19,21 @@ PRISTINE = os.environ.get("C10_PRISTINE", "") == "1"
 F6 = not PRISTINE
 F13 = not PRISTINE
 
+
+def finding_fixed(fid):
+    """True iff known_findings.json lists finding `fid` of C10 as fixed (harness/applyfix.sh flips the status when
+    the fix diff is committed to the repo): selects which of the two modelled variants of the code applies."""
+    import json
+    p = os.path.join(os.path.dirname(os.path.dirname(os.path.dirname(os.path.abspath(__file__)))), "known_findings.json")
+    try:
+        return any(f.get("property") == "C10" and f.get("id") == fid and f.get("status") == "fixed"
+                   for f in json.load(open(p)).get("findings", []))
+    except OSError:
+        return False
+
+
+N1 = finding_fixed("C10-N1") or os.environ.get("C10_N1_FIXED", "") == "1"     # fixes/FC10a applied
+
 ENUM_CAP = 2048      # largest box that is enumerated (all_values, box sweeps)
 STEPSET = [1, 2, 3, 4, 5, 8, 16, 32, 64]
 
@@ -177,8 +192,10 @@ def interp(ops, env, dim_of=None, ptr_of=None):
 ELTS = {1: "i8", 2: "i16", 4: "i32", 8: "i64"}
 
 
-def resolve_real(L, shape, el):
-    """Run get_bound_ops / get_step_ops on a memref<?x…xiN, tsl> and evaluate the ops at runtime shape."""
+def resolve_real(L, shape, el, form="memref"):
+    """Run get_bound_ops / get_step_ops on a memref<?x…xiN, tsl> and evaluate the ops at runtime shape.
+    form = "memref": the bound ops are asked for the memref value (memref.dim ops are generated);
+    form = "shapes": they are given a list of ops producing the extents (as memref-to-snax does)."""
     from snaxc.dialects.tsl import TiledStridedLayoutAttr
     from xdsl.dialects.builtin import IntegerType, MemRefType
     from xdsl.dialects.test import TestOp
@@ -187,8 +204,15 @@ def resolve_real(L, shape, el):
     src = TestOp(result_types=[mt])
     out = {}
     try:
-        ops, bmap = attr.get_bound_ops(src.results[0])
-        env = interp(ops, {}, dim_of=lambda i: shape[i])
+        if form == "shapes":
+            from xdsl.dialects.builtin import IndexType
+            shape_ops = [TestOp(result_types=[IndexType()]) for _ in shape]
+            env0 = {op.results[0]: n for op, n in zip(shape_ops, shape)}
+            ops, bmap = attr.get_bound_ops(list(shape_ops))
+            env = interp(ops, env0)
+        else:
+            ops, bmap = attr.get_bound_ops(src.results[0])
+            env = interp(ops, {}, dim_of=lambda i: shape[i])
         out["bounds"] = [[env[bmap[(d, k)].results[0]] for k in range(len(t))] for d, t in enumerate(L["ts"])]
     except (ImportError, SyntaxError, MemoryError):
         raise
@@ -429,7 +453,8 @@ class C10(Prop):
                 k = rng.randint(1, 5)
                 shp.append(inner * k + (rng.randrange(inner) if rng.random() < 0.1 else 0)
                            if t[0][1] is None else inner * (t[0][1] or 1))
-            yield {"kind": "resolve", "layout": L, "shape": shp, "el": rng.choice([1, 2, 4, 4, 8])}
+            yield {"kind": "resolve", "layout": L, "shape": shp, "el": rng.choice([1, 2, 4, 4, 8]),
+                   "form": rng.choice(["memref", "memref", "shapes"])}
         for _ in range(60 if quick else 1200):   # the common dynamic shape: every dimension `[?, tiles…] -> (?, static…)`
             rank = rng.randint(1, 3)
             ts = [[[None, None]] + gen_tstride(rng, rng.randint(0, 2), (1, 2, 2, 3, 4, 8), "contig")
@@ -448,7 +473,7 @@ class C10(Prop):
                     inner *= b
                 shp.append(inner * rng.randint(1, 4))
             yield {"kind": "resolve", "layout": {"ts": ts, "offset": rng.choice([0, 0, 16, None])}, "shape": shp,
-                   "el": rng.choice([1, 2, 4, 8])}
+                   "el": rng.choice([1, 2, 4, 8]), "form": rng.choice(["memref", "shapes"])}
         for _ in range(120 if quick else 2500):
             L = gen_layout(rng, dyn=0.3, zero=0.05, cap=10 ** 9, bounds=(1, 2, 3, 4, 8, 16), min_rank=0)
             text = str(to_tsl(L))
@@ -536,7 +561,12 @@ class C10(Prop):
             from snaxc.ir.tsl import TiledStridedLayout
             return of_tsl(TiledStridedLayout.from_strides(case["strides"], case["tile_bounds"], case["offset"]))
         if k == "resolve":
-            return resolve_real(case["layout"], case["shape"], case["el"])
+            out = resolve_real(case["layout"], case["shape"], case["el"], case.get("form", "memref"))
+            # the same questions asked of the canonical form (the canonical layout must mean the same)
+            canon = resolve_real(of_tsl(to_tsl(case["layout"]).canonicalize()), case["shape"], 1)
+            out["canon_bounds"] = canon["bounds"]
+            out["canon_steps_el"] = canon["steps_el"]
+            return out
         if k == "parse":
             return exc(lambda: of_tsl(parse_attr(case["text"])))
         if k == "subview":
@@ -552,8 +582,8 @@ class C10(Prop):
         if k == "from_strides":
             return [{"fn": "c10.from_strides", "args": {kk: case[kk] for kk in ("strides", "tile_bounds", "offset")}}]
         if k == "resolve":
-            return [{"fn": "c10.resolve", "args": {"layout": case["layout"], "shape": case["shape"], "el": e}}
-                    for e in (case["el"], 1)]
+            return [{"fn": "c10.resolve", "args": {"layout": case["layout"], "shape": case["shape"], "el": e, "n1": N1,
+                                                   "canon": c}} for e, c in ((case["el"], False), (1, False), (1, True))]
         if k == "parse":
             return [{"fn": "c10.parse", "args": {"tokens": lex(case["text"] + ">"), "f6": F6}}]
         if k == "subview":
@@ -572,6 +602,11 @@ class C10(Prop):
             if "err" in b:
                 return {"model_error": b["err"]}
             r["steps_el"] = b["ok"]["steps"]
+            c = answers[2]
+            if "err" in c:
+                return {"model_error": c["err"]}
+            r["canon_bounds"] = c["ok"]["bounds"]
+            r["canon_steps_el"] = c["ok"]["steps"]
             return r
         if k == "views":
             L = case["layout"]
@@ -724,12 +759,24 @@ class C10(Prop):
                         return bad
             dynamic = [(d, kk) for d, t in enumerate(L["ts"]) for kk, (s, _) in enumerate(t) if s is None]
             static = [(d, kk) for d, t in enumerate(L["ts"]) for kk, (s, _) in enumerate(t) if s is not None]
+            if not is_static(L):
+                self.canon_dynamic(case, impl_out, fail, txt)
             if not dynamic:
                 return bad
             if not static:
-                # no static step to anchor the chain: the convention is undefined; the code yields 0 everywhere
-                if any(se[d][kk] == 0 for d, kk in dynamic) and all(b > 0 for bt in bs for b in bt):
-                    fail(f"every step of the all-dynamic layout {txt} resolves to 0", "C10-N1")
+                # no static step to anchor the chain: row-major default (the right-most tile is contiguous);
+                # the tree without fix FC10a yields 0 everywhere (finding C10-N1)
+                want, cur = {}, 1
+                for d in reversed(range(len(L["ts"]))):
+                    for kk in reversed(range(len(L["ts"][d]))):
+                        want[(d, kk)] = cur
+                        cur *= bs[d][kk]
+                got = {pos: se[pos[0]][pos[1]] for pos in dynamic}
+                if got != want and all(b > 0 for bt in bs for b in bt):
+                    if all(v == 0 for v in got.values()):
+                        fail(f"every step of the all-dynamic layout {txt} resolves to 0", "C10-N1")
+                    else:
+                        fail(f"the all-dynamic layout {txt} resolves to steps {got}, row-major is {want}")
                 return bad
             # (b) contiguity convention: dynamic step = largest static step x its extent x the extents of the
             # dynamic tiles to its right/inside; ties between equal largest steps may be broken either way
@@ -791,6 +838,51 @@ class C10(Prop):
                     fail(what, "D23" if all(o is not None for o in case["offs"]) or any(
                         o not in (None, 0) for o in case["offs"]) else None)
         return bad
+
+    def canon_dynamic(self, case, impl_out, fail, txt):
+        """canonicalize() must not change the function of a dynamic layout either: both forms are resolved at the
+        same runtime shape and compared as static layouts on the whole runtime box."""
+        L = case["layout"]
+        bs, se = impl_out["bounds"], impl_out["steps_el"]
+        cb, cs = impl_out.get("canon_bounds"), impl_out.get("canon_steps_el")
+        if cb is None or cs is None or isinstance(cb, dict) or isinstance(cs, dict):
+            fail(f"bound/step ops raised on the canonical form of {txt}: {cb} {cs}")
+            return
+        if not all(b > 0 for bt in bs + cb for b in bt):
+            return
+        R = [[[s_, b] for s_, b in zip(st, bt)] for st, bt in zip(se, bs)]
+        Rc = [[[s_, b] for s_, b in zip(st, bt)] for st, bt in zip(cs, cb)]
+        sh, shc = shape_of({"ts": R}), shape_of({"ts": Rc})
+        what = None
+        if sh != shc:
+            what = f"runtime shape {sh} -> {shc}"
+        else:
+            if size(sh) <= ENUM_CAP:
+                pts = box(sh)
+            else:
+                r2 = random.Random(size(sh))
+                pts = [[r2.randrange(n) for n in sh] for _ in range(256)] + [[n - 1 for n in sh]]
+            for pnt in pts:
+                if ref_addr(R, pnt) != ref_addr(Rc, pnt):
+                    what = f"element {pnt} moves from {ref_addr(R, pnt)} to {ref_addr(Rc, pnt)}"
+                    break
+        if what is None:
+            return
+        Lc = of_tsl(to_tsl(L).canonicalize())
+
+        def seed(X, steps):
+            """the seed of the dynamic chain as observed: the step of the first dynamic tile from the right"""
+            for d in reversed(range(len(X["ts"]))):
+                for kk in reversed(range(len(X["ts"][d]))):
+                    if X["ts"][d][kk][0] is None:
+                        return steps[d][kk]
+            return None
+        # finding C10-N3: dropping a unit tile / squashing may change which static step is the largest (or its
+        # extent), and with it the seed of the dynamic chain (theorem canonicalize_dynamic_partial, clause
+        # seedPreserved); a difference with equal seeds is a new violation
+        s0, s1 = seed(L, se), seed(Lc, cs)
+        fid = "C10-N3" if s0 is not None and s1 is not None and s0 != s1 else None
+        fail(f"canonicalize changes the meaning of {txt}: `{to_tsl(Lc)}` resolves to steps {cs} instead of {se}; {what}", fid)
 
     def nontrivial(self, case, impl_out):
         L = case.get("layout")
